@@ -41,6 +41,14 @@ def clause_of(check, h):
     return d.strip()
 
 
+MEMORY_CLAUSES = ("Offset result and original pointer", "dereference failure", "pointer outside object bounds",
+                  "memcpy", "memmove", "memset", "pointer relation", "Kani does not support reasoning about pointer")
+
+
+def _is_memory_clause(check):
+    return check.desc.startswith(MEMORY_CLAUSES) or check.cls in ("pointer_dereference", "safety_check", "pointer_arithmetic")
+
+
 def match_known(known, prop_id, obligation, clause, input_class):
     for k in known:
         if k.get("property") != prop_id or k.get("status") != "known":
@@ -127,6 +135,8 @@ def _run(prop, tier, seed, only, known, stage, t0):
             r = kani.run_harness(stage, h.full, h.profile, tmo, mem, solver=solver, should_panic=h.should_panic)
         finally:
             budget.release(mem)
+        if r.verdict != "success":
+            _save_log(prop, h, solver, r)
         log("  %-44s %-1s %-7s %-12s %6.1fs  checks=%d failed=%d %s" % (
             h.name, h.profile, r.solver, r.verdict, r.wall, r.n_checks, len(r.failed), r.reason))
         return h, solver, r
@@ -161,6 +171,18 @@ def _run(prop, tier, seed, only, known, stage, t0):
             _save_log(prop, h, solver, r)
             continue
         clauses = [(cl, c) for cl, c in clauses if cl != "unwind"]
+        # failures of CBMC's memory model (pointer arithmetic leaving a model object, invalid
+        # dereference) are either a too-small model arena or a memory-safety candidate: they are
+        # never handed to a class-level script adapter.  Alone they go through native playback.
+        mem = [(cl, c) for cl, c in clauses if _is_memory_clause(c)]
+        rest = [(cl, c) for cl, c in clauses if not _is_memory_clause(c)]
+        if mem and not rest:
+            rest = mem
+            if h.replay != "playback":
+                inconclusive.append((h, solver, "memory-model check failed (model arena too small, or a memory-safety "
+                                     "candidate that no script can confirm): " + mem[0][1].desc))
+                continue
+        clauses = rest
         unlisted = []
         for cl, c in clauses:
             k = match_known(known, prop.id, h.obligation, cl, h.input_class)
